@@ -10,6 +10,7 @@ package main
 import (
 	"context"
 	"fmt"
+	"math/rand"
 	"net"
 	"strings"
 	"sync"
@@ -92,6 +93,10 @@ func (j *wireJournal) serve(c net.Conn) {
 }
 
 func runWireF5() {
+	runSeeded(0, func(*rand.Rand) { wireCase() })
+}
+
+func wireCase() {
 	j := &wireJournal{syncs: make(chan struct{}, 4)}
 	dialer := &kafka.Dialer{
 		Timeout: 2 * time.Second,
@@ -115,6 +120,7 @@ func runWireF5() {
 	case <-j.syncs:
 	case <-time.After(watchdog):
 		res = "HANG:no SyncGroup request "
+		noteHang("wire: no SyncGroup request")
 	}
 	// the answer 27 is on its way; run will block offering the error (nobody calls Next).
 	// Close may also win earlier than that (then ErrGroupClosed is not involved either: the
@@ -125,6 +131,7 @@ func runWireF5() {
 	case <-closed:
 	case <-time.After(watchdog):
 		res += "HANG:Close "
+		noteHang("wire: Close")
 	}
 	j.mu.Lock()
 	defer j.mu.Unlock()
